@@ -151,7 +151,7 @@ def run(ctx: Ctx):
     cfg = cfg_of(nlp.node)
     gv = GuardView(cfg)
     rets = [n for n in own_nodes(nlp.node) if isinstance(n, ast.Return) and isinstance(n.value, ast.Tuple)]
-    ctx.floor("returns of _solve_node_lp", len(rets), 2)
+    ctx.floor("returns of _solve_node_lp", len(rets), 1)
     widths = {len(r.value.elts) for r in rets}
     ctx.ob("C17-O2", "R3 STATUS-USE", nlp, "node LP returns its convergence flag with the LP value at every return", widths == {4}, f"tuple widths {sorted(widths)}", node=nlp.node)
     flagname = None
@@ -169,6 +169,8 @@ def run(ctx: Ctx):
     asg = _flag_assignments(nlp, flagname)
     trues = [(n, at, nd) for n, at, nd in asg if ast.unparse(n.value) == "True"]
     ctx.ob("C17-O2", "R2 BUDGET-EXIT", nlp, "node convergence flag becomes true only on the pricing test's own exit", bool(trues) and all(_is_pricing_exit(at) for _, at, _ in trues) and any(ast.unparse(n.value) == "False" and nd.loop is None for n, _, nd in asg), f"{len(trues)} true-assignments", node=nlp.node)
+    feas = {atom_of("lp_obj != float('inf')"), atom_of("lp_obj < float('inf')")}
+    ctx.ob("C17-O2", "R2 BUDGET-EXIT", nlp, "the pricing test proves a node's bound only for a feasible restricted master (an infeasible one leaves before pricing, flag false)", bool(trues) and all(at & feas for _, at, _ in trues), f"{[sorted(a for a in at if 'lp_obj' in a) for _, at, _ in trues]}: an infeasible master reports zero duals, pricing against them finds no improving column, and the node is taken for proven infeasible although columns nobody priced would restore feasibility - the subtree is pruned and a non-minimal incumbent is published as OPTIMAL", node=trues[0][0] if trues else nlp.node)
     # stall: pricing re-proposing a known column ends the loop without convergence
     brk = [n for n in cfg.nodes if n.kind == "stmt" and isinstance(n.ast, ast.Break)]
     stall = [b for b in brk if any("in column_set" in a and "not in" not in a for a in gv.guard_atoms(b, stable_only=False)) or any(a.startswith("OR(") and "new_col in column_set" in a for a in gv.guard_atoms(b, stable_only=False))]
@@ -439,6 +441,11 @@ def _v_nlp_infeasible_proven(tree):
     M.replace_stmt(g, lambda s: isinstance(s, ast.Return) and M.src_has(s, "cg_iters, False"), M.stmts("return (x_vals, lp_obj, cg_iters, True)"))
 
 
+def _v_nlp_infeasible_prices(tree):
+    g = M.find_func(tree, "_solve_node_lp")
+    M.replace_stmt(g, lambda s: isinstance(s, ast.If) and M.src_has(s.test, "lp_obj == float('inf')"), [])
+
+
 def _v_bp_float_objective(tree):
     g = M.find_func(tree, "_branch_and_price")
     M.replace_stmt(g, lambda s: M.src_is(s, "obj = float(sum(candidate.values()))"), M.stmts("obj = sum((x for x in x_vals if x > eps))"))
@@ -588,6 +595,7 @@ VARIANTS = [
     M.Variant("bp does not fold node flags", BP, _v_bp_no_fold, "C17-O2"),
     M.Variant("node LP claims convergence after the budget", BP, _v_nlp_flag_after_budget, "C17-O2"),
     M.Variant("infeasible restricted master counted as proven", BP, _v_nlp_infeasible_proven, "C17-O2"),
+    M.Variant("node LP prices against the zero duals of an infeasible restricted master (seed C17-U)", BP, _v_nlp_infeasible_prices, "C17-O2"),
     M.Variant("bp incumbent scored with the float LP value (original defect)", BP, _v_bp_float_objective, "C17-O3"),
     M.Variant("bp integral root publishes lp_obj (original defect)", BP, _v_root_lp_obj, "C17-O3"),
     M.Variant("bounded master LP keeps basic artificials (original defect)", BP, _v_no_drive_out, "C17-O5"),
